@@ -83,6 +83,23 @@ def handle : List String → String
     | _, _, _, _ => "bad-op"
   -- the server is closed while a check is in flight: the loop shape `exitsOnClose` runs the check inline in the selecting
   -- goroutine, so after the check returns the next select sees Closed and no further check starts
+  -- a server left alone: the loop completes a round every interval (a round over zero tokens succeeds), so after `wait` ms
+  -- the last completion is less than one interval (+ the round) old: never stale, status N
+  | ["idle", _ntok, iv, _wait] =>
+    match iv.toInt? with
+    | some iv =>
+      let N := normalizeFailures 3
+      let I := checkInterval (normalizeInterval iv)
+      let st := check N (start N 0) true 0
+      s!"ok {httpCode (healthy false I st (I / 2))}"
+    | none => "bad-op"
+  -- /health while a check round is inside a hanging ping: `Healthy` reads the last stored state under the lock that the
+  -- round does NOT hold while it pings (the previous round succeeded a moment ago)
+  | ["busy"] =>
+    let N := normalizeFailures 3
+    let I := checkInterval (normalizeInterval 1)
+    let st := check N (start N 0) true 0
+    s!"ok {httpCode (healthy false I st 100)}"
   | ["loopmid", _iv] =>
     let t := Relic.Generated.HealthLoop.term
     if Relic.HealthLoop.exitsOnClose Relic.HealthLoop.hcName Relic.HealthLoop.closedChan t then "exited extra=0"
